@@ -176,6 +176,13 @@ def _rom48():
         return f.read()
 
 
+def _rom(machine, n):
+    """The ROM a machine has at 0x0000 (n: 128K ROM number)."""
+    name = {'48K': '48.rom', '128K': '128-%d.rom' % n, '+2': 'plus2-%d.rom' % n}[machine]
+    with open(os.path.join(REPO, 'skoolkit', 'resources', name), 'rb') as f:
+        return f.read()
+
+
 # Stack pointer values at which the two bytes an interrupt acknowledge (or any push) writes fall on different sides of
 # the ROM/RAM border or of the 64K wrap: the byte at SP-1 and the byte at SP-2 are each stored only when their own
 # address is RAM.  SPLIT_SP: exactly one of the two lands in ROM; the others are their neighbours.
@@ -191,7 +198,14 @@ IO_EDGE = (0xFF, 0xFE, 0x00, 0x7F, 0x80, 0x1F)
 IO_A = (0x00, 0x07, 0x7F, 0xFF)
 
 
-def gen_code(rnd, org, m128, isr_addr, buf, edge=False, io=False):
+# Interrupt register values whose mode 2 vector (low byte at I*256+255, high byte at (I*256+256) mod 65536: the bus shows 255)
+# straddles a 16K page edge: FF wraps at 64K into ROM, 3F has its low byte in ROM and the high byte in RAM, 7F and BF have the
+# two bytes in different RAM pages (on a 128K the second is the bank paged in at C000); FE and 40 are their neighbours.
+STRADDLE_I = (0xFF, 0x3F, 0x7F, 0xBF)
+EDGE_I = STRADDLE_I + (0xFE, 0x40)
+
+
+def gen_code(rnd, org, m128, isr_addr, buf, edge=False, io=False, ivals=(), im2=False):
     """A program (list of bytes) looping for ever; fragments chosen to hit the RZX protocol's cases."""
     def w(v):
         return [v & 255, (v >> 8) & 255]
@@ -210,6 +224,13 @@ def gen_code(rnd, org, m128, isr_addr, buf, edge=False, io=False):
         if force:
             return f + rnd.choice(([0x76], [0x18, 0xFE], [0xED, 0x57, 0x18, 0xFC], [0xED, 0x5F, 0x18, 0xFC]))
         return f + rnd.choice(([0x76], [0x76], [0x18, 0xFE], [0xED, 0x57, 0x18, 0xFC], [0xED, 0x5F, 0x18, 0xFC], [0x00], []))
+    def im2_frag(force=False):
+        # LD A,i ; LD I,A ; IM 2 ; EI ; then wait for the frame interrupt or go on (the machine has a vector and a handler for i)
+        f = [0x3E, ivals[0] if force else rnd.choice(ivals), 0xED, 0x47, 0xED, 0x5E, 0xFB]
+        if force:
+            return f + rnd.choice(([0x76], [0x00], []))
+        return f + rnd.choice(([0x76], [0x76], [0x18, 0xFE], [0xED, 0x57, 0x18, 0xFC], [0x00], [], []))
+
     def io_frag(force=False):
         # LD HL,buf ; LD A,a / LD BC,a:n ; a port access with an edge port number ; [BIT k,(HL) or BIT k,(IX+d)] ; [F stored]
         a = rnd.choice(IO_A + (rnd.randrange(256),))
@@ -275,6 +296,7 @@ def gen_code(rnd, org, m128, isr_addr, buf, edge=False, io=False):
         (2, lambda: [0x32] + w(buf + rnd.randrange(32))),
         (2, lambda: [rnd.randrange(256) for _ in range(rnd.randrange(1, 4))]),              # soup
         (5, io_frag),                                                                       # port access at an edge port number, MEMPTR made visible
+        (4 if ivals else 0, im2_frag),                                                      # IM 2 with the vector at a page edge
         (4, sp_frag),                                                                       # interrupt accepted with SP at a ROM/RAM or 64K edge
     ]
     def pport(base, fixed):
@@ -305,6 +327,8 @@ def gen_code(rnd, org, m128, isr_addr, buf, edge=False, io=False):
         code += sp_frag(True)
     if io:
         code += io_frag(True)
+    if im2:
+        code += im2_frag(True)
     while len(code) < n:
         x = rnd.randrange(total)
         for wt, fn in frag_w:
@@ -335,28 +359,70 @@ def gen_isr(rnd, org=0x8000):
     return body + tail
 
 
-def gen_machine(rnd, idx, edge=False, io=False):
+def _vec_clear(i, org, buf):
+    """The two vector bytes of I = i are not where the program or its buffer are."""
+    for a in ((i << 8) | 0xFF, ((i << 8) + 0x100) & 0xFFFF):
+        if org - 2 <= a < org + 0x200 or buf - 1 <= a < buf + 0x40:
+            return False
+    return True
+
+
+def im2_setup(rnd, space, rom, i, org, body):
+    """Make the mode 2 vector of I = i lead to a copy of the handler `body`: vector bytes that lie in RAM are chosen, those in
+    ROM are what the ROM holds, and the handler is put at the address the two bytes give.  -> handler address (None: in ROM)."""
+    lo_a = (i << 8) | 0xFF
+    hi_a = (lo_a + 1) & 0xFFFF
+    if lo_a >= 0x4000 and hi_a >= 0x4000:
+        if i in EDGE_I:
+            isr = rnd.choice((0x6880, 0x9880, 0xAC80, 0xE880)) + rnd.randrange(64)
+        else:
+            isr = (i << 8) + 0x180 + rnd.randrange(64)
+    else:
+        hi = rom[hi_a] if hi_a < 0x4000 else rnd.choice((0x68, 0x98, 0xAC, 0xE8, 0xF3))
+        lo = rom[lo_a] if lo_a < 0x4000 else rnd.randrange(0x08, 0xC0)
+        isr = lo | (hi << 8)
+        if isr < 0x4000 or isr + len(body) > 0xFFF0 or org - 40 <= isr < org + 0x200:
+            return None
+    if lo_a >= 0x4000:
+        space[lo_a] = isr & 255
+    if hi_a >= 0x4000:
+        space[hi_a] = isr >> 8
+    for k, b in enumerate(body):
+        space[isr + k] = b
+    return isr
+
+
+def gen_machine(rnd, idx, edge=False, io=False, im2=False):
     """-> abstract start machine (snapfile-style dict; banks as bytearrays).  edge: the program starts with LD SP,<edge
-    value> ; IM 1/2 ; EI ; wait, so that it certainly takes a frame interrupt with SP there (both machine types alike)."""
-    m128 = rnd.random() < (0.5 if edge else 0.4)
+    value> ; IM 1/2 ; EI ; wait, so that it certainly takes a frame interrupt with SP there (both machine types alike).
+    im2: it starts in IM 2 with interrupts enabled and I at a value whose vector straddles a 16K page edge (mostly FF)."""
+    m128 = rnd.random() < (0.5 if edge or im2 else 0.4)
+    machine = '+2' if m128 and rnd.random() < 0.15 else '128K' if m128 else '48K'
+    o7 = rnd.choice((0x10, 0x10, 0x11, 0x13, 0x14, 0x16, 0x17, 0x00, 0x07)) if m128 else 0
+    rom = _rom(machine, (o7 >> 4) & 1)
     org = rnd.choice((0x8000, 0x8000, 0x6000, 0xA000, 0x7FF0, 0xC000 if not m128 or rnd.random() < 0.3 else 0x9000))
-    i_reg = rnd.choice((0xBE, 0x7D, 0x9A))
-    isr = (i_reg << 8) + 0x180 + rnd.randrange(64)
     buf = rnd.choice((0x5B00, 0x7000, 0xB000, 0xC000 if m128 else 0xE000))
-    code = gen_code(rnd, org, m128, isr, buf, edge, io)
+    # I at the start, and a second value the program may switch to: mostly values whose vector sits at a page edge
+    ivals = []
+    while len(ivals) < 2:
+        if im2 and not ivals:
+            i = rnd.choice(STRADDLE_I + (0xFF, 0xFF, 0xFF))
+        else:
+            i = rnd.choice(EDGE_I + (0xFF,)) if rnd.random() < 0.6 else rnd.choice((0xBE, 0x7D, 0x9A))
+        if i not in ivals and _vec_clear(i, org, buf):
+            ivals.append(i)
+    i_reg = ivals[0]
+    code = gen_code(rnd, org, m128, 0, buf, edge, io, ivals, im2)
     space = bytearray(65536)
     if rnd.random() < 0.25:
         for a in range(0x4000, 65536):
             space[a] = rnd.randrange(256) if rnd.random() < 0.02 else 0
     for k, b in enumerate(code):
         space[(org + k) & 0xFFFF] = b
-    space[(i_reg << 8) + 0xFF] = isr & 255
-    space[(i_reg << 8) + 0x100] = isr >> 8
-    for k, b in enumerate(gen_isr(rnd, org)):
-        space[isr + k] = b
-    m = {'machine': '128K' if m128 else '48K'}
-    if m128 and rnd.random() < 0.15:
-        m['machine'] = '+2'
+    body = gen_isr(rnd, org)
+    isrs = [im2_setup(rnd, space, rom, i, org, body) for i in ivals]
+    isr = isrs[0] or 0
+    m = {'machine': machine}
     for r8 in ('a', 'f', 'a2', 'f2', 'r'):
         m[r8] = rnd.randrange(256)
     for r16 in ('bc', 'de', 'hl', 'bc2', 'de2', 'hl2', 'ix'):
@@ -366,8 +432,8 @@ def gen_machine(rnd, idx, edge=False, io=False):
     m['sp'] = rnd.choice((0xFF40, 0x7F00, 0xBFF0, 0x5D00, 0x4002, 0x0000 if rnd.random() < 0.3 else 0xFFFE, rnd.randrange(0x5000, 0x10000),
                           rnd.choice(SPLIT_SP), rnd.choice(EDGE_SP)))
     m['pc'] = org
-    m['iff1'] = m['iff2'] = rnd.choice((0, 1, 1))
-    m['im'] = rnd.choice((1, 2, 2, 2, 0))
+    m['iff1'] = m['iff2'] = 1 if im2 else rnd.choice((0, 1, 1))
+    m['im'] = 2 if im2 else rnd.choice((1, 2, 2, 2, 0))
     m['border'] = rnd.randrange(8)
     m['issue2'] = 0
     m['tstates'] = rnd.randrange(69888)
@@ -376,7 +442,6 @@ def gen_machine(rnd, idx, edge=False, io=False):
     m['offfd'] = rnd.randrange(16)
     m['ay'] = [rnd.randrange(256) for _ in range(16)]
     if m128:
-        o7 = rnd.choice((0x10, 0x10, 0x11, 0x13, 0x14, 0x16, 0x17, 0x00, 0x07))
         m['o7ffd'] = o7
         banks = {b: bytearray(16384) for b in range(8)}
         banks[5][:] = space[0x4000:0x8000]
@@ -388,12 +453,19 @@ def gen_machine(rnd, idx, edge=False, io=False):
                 filler = gen_code(rnd, 0xC000, True, isr, 0xC100)
                 banks[b][:len(filler)] = bytes(filler)
                 banks[b][0x200] = b
+                if rnd.random() < 0.5:
+                    # whatever of the vectors and handlers lies above C000 is there in this bank too
+                    for i, h in zip(ivals, isrs):
+                        for a in [(i << 8) | 0xFF, ((i << 8) + 0x100) & 0xFFFF] + ([] if h is None else list(range(h, h + len(body)))):
+                            if a >= 0xC000:
+                                banks[b][a - 0xC000] = space[a]
     else:
         m['o7ffd'] = 0
         banks = {5: bytearray(space[0x4000:0x8000]), 2: bytearray(space[0x8000:0xC000]), 0: bytearray(space[0xC000:])}
     m['banks'] = banks
     m['org'] = org
     m['idx'] = idx
+    m['ivals'] = ivals
     return m
 
 
@@ -533,14 +605,22 @@ def accept_interrupt(sim, is128):
     on a Spectrum), IM 2 -> vector at I*256+FF; one more refresh; MEMPTR = new PC."""
     r, mem = sim.registers, sim.memory
     pc = r[PC]
+    hit = 0
+    if r[IM] == 2:
+        # VectorReadBeforePush (named deviation of SkoolKit's machine, C and Python alike): a Z80 pushes PC and then reads the
+        # vector; SkoolKit reads the vector first, which differs only when the push lands on the vector itself.  The property
+        # is about recordings of the simulator's own runs, so the recorder follows the simulator here (counted as `hit`).
+        va = (r[I] << 8) | 0xFF
+        newpc = mem[va] | (mem[(va + 1) & 0xFFFF] << 8)
     for k, v in ((1, pc >> 8), (2, pc & 255)):
         a = (r[SP] - k) & 0xFFFF
         if a >= 0x4000:
             mem[a] = v
+            if r[IM] == 2 and a in (va, (va + 1) & 0xFFFF):
+                hit = 1
     r[SP] = (r[SP] - 2) & 0xFFFF
     if r[IM] == 2:
-        va = (r[I] << 8) | 0xFF
-        r[PC] = mem[va] | (mem[(va + 1) & 0xFFFF] << 8)
+        r[PC] = newpc
         r[T] += 19
     else:
         r[PC] = 0x38
@@ -549,6 +629,7 @@ def accept_interrupt(sim, is128):
     r[IFF] = 0
     r[HALT] = 0
     r[MEMPTR] = r[PC]
+    return hit
 
 
 class Recording:
@@ -575,6 +656,8 @@ def record(m, plan, conv, cmio, inmode, inseed, splits=(), empties=False, zero_m
     rec.frames, rec.ends, rec.bounds, rec.events, rec.snaps, rec.snapmode = [], [], [], [], {}, {}
     rec.rmismatch = 0
     rec.intsp = []                                        # (SP, IM, decision) of every accepted interrupt with SP at an edge
+    rec.vechit = 0                                        # mode 2 interrupts whose push overwrote their own vector
+    rec.intim2 = []                                       # I of every interrupt accepted in mode 2 with the vector at a page edge
     rec.io = {}                                           # port accesses at edge port numbers / BIT k,(HL) right after an IN
     prev_in = None
     short = False
@@ -643,9 +726,11 @@ def record(m, plan, conv, cmio, inmode, inseed, splits=(), empties=False, zero_m
         elif dec == 'accept-pv':
             r[F] &= 0xFB
         if dec.startswith('accept'):
+            if r[IM] == 2 and r[I] in EDGE_I:
+                rec.intim2.append(int(r[I]))
             if r[SP] in EDGE_SP:
                 rec.intsp.append((int(r[SP]), int(r[IM]), dec))
-            accept_interrupt(sim, pm.is128)
+            rec.vechit += accept_interrupt(sim, pm.is128)
         if zero_memptr:
             r[MEMPTR] = 0
         rec.frames.append([fc, ins])
@@ -903,7 +988,8 @@ def one_recording(rseed, wd, idx, tier, cases, traces, stats):
     rnd = random.Random(rseed)
     # one recording in eight is certain to take an interrupt with SP at an edge, another one starts with IN A,(n) at an edge
     # port number followed by BIT k,(HL) and a store of F
-    m = gen_machine(rnd, idx, edge=idx % 8 == 1, io=idx % 8 == 2)
+    # and a third one runs in IM 2 with I = FF (mostly) or another value whose vector straddles a 16K page edge
+    m = gen_machine(rnd, idx, edge=idx % 8 == 1, io=idx % 8 == 2, im2=idx % 8 == 3)
     plan = gen_plan(rnd, 10 if tier == 'quick' else 14)
     conv = rnd.randrange(4)
     fmt = gen_fmt(rnd, m)
@@ -964,6 +1050,18 @@ def one_recording(rseed, wd, idx, tier, cases, traces, stats):
                 stats['int-sp-split:im%d' % im] += 1
                 stats['int-sp-split:%s' % ('48K' if m['machine'] == '48K' else '128K')] += 1
                 stats['int-sp-split:%s' % dec] += 1
+    stats['int-im2:push-overwrites-vector'] += recs[0].vechit + recs[1].vechit
+    for cm in (0, 1):
+        for i in recs[cm].intim2:
+            # vacuity: mode 2 interrupts whose vector read wraps at 64K or crosses a 16K page edge
+            stats['int-im2:I=%02X' % i] += 1
+            stats['int-im2:I=%02X:%s' % (i, '48K' if m['machine'] == '48K' else '128K')] += 1
+            if i in STRADDLE_I:
+                stats['int-im2-straddle'] += 1
+                if i in (0x7F, 0xBF):
+                    stats['int-im2-straddle:two-ram-pages'] += 1
+                if not cm:
+                    stats['int-im2-straddle:plain'] += 1
     if cmio_ok:
         # vacuity: what the contended playbacks (C and --python, both played below) of this recording execute
         for tag, v in recs[1].io.items():
@@ -1028,8 +1126,8 @@ def one_recording(rseed, wd, idx, tier, cases, traces, stats):
     # (3) every stop point: --stop k writing the rest, then playing that file
     for k in range(1, rp.nframes):
         impl, cm = rnd.choice((('c', 0), ('c', 0), ('c', 1), ('py', 0), ('py', 1))) if tier == 'quick' else rnd.choice(CONFIGS)
-        if cm and not cmio_ok:
-            cm = 0
+        if cm and (not cmio_ok or k >= recs[1].nframes):
+            cm = 0                                        # (the contended run may have been cut into fewer frames than the plain one)
         path, blocks, bj = files[cm]
         fl = conv | bit2()
         wpath = os.path.join(wd, 'w%d_%d.rzx' % (idx, k))
